@@ -19,12 +19,15 @@ Section C09.
   Notation vconvs := (vconvs_of pf reparse reparse_arr reparse_preds sugg sim interp_with interp_fn).
 
   (** The list form requires exactly one nested item: none is too-few-items, two or more -
-      any number - is too-many-items, a single literal is rejected. *)
+      any number - is too-many-items (reported at the first surplus item), a single literal is rejected
+      (reported at the literal). *)
   Theorem C09_list_arity :
     forall c wordv vs,
       from_list (impl (TEnumR c wordv vs)) [] = Err (new_err (KTooFewItems 1))
-      /\ (forall a b r, from_list (impl (TEnumR c wordv vs)) (a :: b :: r) = Err (new_err (KTooManyItems 1)))
-      /\ (forall i l, from_list (impl (TEnumR c wordv vs)) [NLit i l] = Err (unsupported_format "literal")).
+      /\ (forall a b r, from_list (impl (TEnumR c wordv vs)) (a :: b :: r)
+                         = Err (with_span (i_span (ninfo b)) (new_err (KTooManyItems 1))))
+      /\ (forall i l, from_list (impl (TEnumR c wordv vs)) [NLit i l]
+                      = Err (with_span (i_span i) (unsupported_format "literal"))).
   Proof.
     exact (fun c wordv vs => conj (enum_from_list_none sugg sim interp_with interp_fn vs (vconvs vs))
              (conj (enum_from_list_many sugg sim interp_with interp_fn vs (vconvs vs))
